@@ -214,7 +214,7 @@ def build_problem(case, algo, params, nagents, replication_capacity=1000):
 
 
 def run_orchestrated(case, algo, params, nagents, dist_kind, seed, timeout=20.0, lines=False, monitor=None, jitter_p=0.2,
-                     replication=None, k_target=None, pause_resume=False, collect_moment="value_change", period=None, watchdog=90.0, p_long=0.0, stall=None, start_delays=False):
+                     replication=None, k_target=None, pause_resume=False, collect_moment="value_change", period=None, watchdog=90.0, p_long=0.0, stall=None, start_delays=False, removal=None):
     """one orchestrated thread-mode run, observed where commands/solve.py looks: orchestrator.status right after run()"""
     from pydcop.infrastructure.run import run_local_thread_dcop
     from pydcop.infrastructure import communication as comm_mod, agents as agents_mod, discovery as disc_mod, \
@@ -325,6 +325,26 @@ def run_orchestrated(case, algo, params, nagents, dist_kind, seed, timeout=20.0,
                     out["errors"].append("pause/resume: %s" % e)
             threading.Thread(target=pr, name="pv_pause_resume", daemon=True).start()
         stall_state["t_run"] = time.time()
+        if removal:
+            from pydcop.dcop.scenario import Scenario, DcopEvent, EventAction
+
+            sc = Scenario([DcopEvent("e1", actions=[EventAction("remove_agent", agent=a) for a in removal])])
+
+            def injector():
+                # same hand-over as in the C27 harness: the scenario goes to the orchestrator's own _process_event()
+                # once every agent is reported running
+                deadline = time.time() + 10
+                while time.time() < deadline:
+                    st = dict(orch.mgt._agts_state)
+                    if st and all(v == "running" for v in st.values()):
+                        break
+                    time.sleep(0.01)
+                time.sleep(0.1 + rng.random() * 0.2)
+                out["removal_injected_at"] = time.time() - t0
+                orch._events_iterator = iter(sc)
+                orch._process_event()
+
+            threading.Thread(target=injector, name="pv_injector", daemon=True).start()
         orch.run(timeout=timeout)
         out["run_wall"] = time.time() - t0
         out["status"] = orch.status
@@ -335,7 +355,12 @@ def run_orchestrated(case, algo, params, nagents, dist_kind, seed, timeout=20.0,
         except Exception as e:
             out["dcop_solution_cost"] = "%s: %s" % (type(e).__name__, e)
 
+    import os, shutil, tempfile
+    scratch = tempfile.mkdtemp(prefix="pvorch_") if removal else None
+    cwd0 = os.getcwd()
     try:
+        if scratch:
+            os.chdir(scratch)
         # harness watchdog: the driver runs in its own thread so that a run that blocks for ever is reported, not waited for
         err = []
 
@@ -391,6 +416,9 @@ def run_orchestrated(case, algo, params, nagents, dist_kind, seed, timeout=20.0,
             monitor.uninstall()
         root.removeHandler(cap)
         logging.disable(logging.CRITICAL)
+        if scratch:
+            os.chdir(cwd0)
+            shutil.rmtree(scratch, ignore_errors=True)
     out["fatal"] = fatal
     out["injected"] = per.injected
     out["long_sleeps"] = per.long_sleeps
